@@ -12,6 +12,8 @@
 
 /// Cold start (no cached buffer yet): remove() falls back to a fresh queue; nothing is lost, cached buffers are empty.
 #[kani::proof]
+#[kani::stub(core::any::TypeId::of, crate::vh::stub_typeid_of)]
+#[kani::stub(<core::any::TypeId as crate::vh::PEq>::eq, crate::vh::stub_typeid_eq)]
 #[kani::unwind(8)]
 fn cmdqueue_cold_start()
 {
@@ -34,6 +36,8 @@ fn cmdqueue_cold_start()
 
 /// pop_front returns arrival order; an empty append is a no-op on contents.
 #[kani::proof]
+#[kani::stub(core::any::TypeId::of, crate::vh::stub_typeid_of)]
+#[kani::stub(<core::any::TypeId as crate::vh::PEq>::eq, crate::vh::stub_typeid_eq)]
 #[kani::unwind(8)]
 fn cmdqueue_fifo()
 {
@@ -52,6 +56,8 @@ fn cmdqueue_fifo()
 }
 
 #[kani::proof]
+#[kani::stub(core::any::TypeId::of, crate::vh::stub_typeid_of)]
+#[kani::stub(<core::any::TypeId as crate::vh::PEq>::eq, crate::vh::stub_typeid_eq)]
 #[kani::unwind(8)]
 fn cmdqueue_witness()
 {
